@@ -201,6 +201,19 @@ Qed.
 (* ---- whole lines ------------------------------------------------------------------------------------------------------------------------- *)
 
 Definition item_of (n : N) (r : arec) : line := mkLine n (CRecord (rr_of r)).
+(* the line of the model that an item of the specification denotes *)
+Definition line_of (n : N) (it : aitem) : line :=
+  match it with
+  | IRecord r => item_of n r
+  | IInclude path o => mkLine n (CInclude path (option_map name_of o))
+  end.
+(* what a line yields *)
+Definition line_item (x : sctx) (l : aline) : option aitem :=
+  match l with
+  | LRecord _ r => Some (IRecord r)
+  | LInclude _ _ _ path org _ => Some (IInclude path (match org with Some (_, _, ls) => Some ls | None => x_origin x end))
+  | _ => None
+  end.
 
 Lemma tc_head x p2 tc r p3 sc ty rest : tc_ok x p2 tc r = Some p3 -> sym_ok spec_types sc ty = true ->
   exists h tl, render_tc tc (a_class r) ++ render_type sc ty ++ rest = h :: tl /\ plainb h = true /\ h <> 36.
@@ -423,24 +436,115 @@ Proof.
   cbv beta. unfold after_line, ctx_of. cbn [x_origin x_owner x_ttl x_class x_default c_origin c_prev_owner c_prev_ttl c_prev_class]. rewrite ttl_from_denote. apply runs_ret.
 Qed.
 
+(* ---- $INCLUDE ------------------------------------------------------------------------------------------------------------------------------ *)
+
+Lemma include_word_ok : Forall (fun c => c <> 10) d_include /\ Forall (fun c => lower c <> 10) d_include.
+Proof. split; repeat constructor; discriminate. Qed.
+
+Lemma include_not_origin lows rest r : r_rest r = apply_case lows d_include_s ++ rest -> expect_field_ci d_origin r = Ok (false, r).
+Proof.
+  intros E. apply expect_field_differs. rewrite E. cbn [apply_case d_include_s d_origin length app firstn].
+  destruct (hd false lows); destruct (hd false (tl lows)); reflexivity.
+Qed.
+
+Lemma include_not_ttl lows rest r : r_rest r = apply_case lows d_include_s ++ rest -> expect_field_ci d_ttl r = Ok (false, r).
+Proof.
+  intros E. apply expect_field_differs. rewrite E. cbn [apply_case d_include_s d_ttl length app firstn].
+  destruct (hd false lows); destruct (hd false (tl lows)); reflexivity.
+Qed.
+
+(* everything after the word $INCLUDE; q is the position the line number is taken from *)
+Lemma include_body_runs x q s pc path org e : sctx_good x -> line_ok x (LInclude [] s pc path org e) = true ->
+  runs (eoft (e_term e))
+       (skip_to_next_field ExpectedIncludePath ;;
+        do pth <- parse_include_path;
+        do f <- skip_to_next_field_or_through_eol;
+        do origin <- (match f with
+                      | Eol => ret (c_origin (ctx_of x))
+                      | Field => do o <- parse_name (c_origin (ctx_of x)); expect_eol ;; ret (Some o)
+                      end);
+        ret (mkLine (p_line q) (CInclude pth origin)))
+       (render_sep s ++ render_string pc path ++ render_org org ++ render_eol e) false false
+       (mkLine (p_line q) (CInclude path (option_map name_of (match org with Some (_, _, ls) => Some ls | None => x_origin x end)))).
+Proof.
+  intros Hx Hok. cbn [line_ok] in Hok. destruct (sep_ok false false s) as [p1|] eqn:Es; [|discriminate].
+  apply andb_true_iff in Hok. destruct Hok as [Hpath Hok]. pose proof (sep_ok_inv _ _ _ _ Es) as [HP HE].
+  assert (Hhead : forall rest, fstart (render_string pc path ++ rest)).
+  { intros rest. unfold path_ok in Hpath. apply andb_true_iff in Hpath. destruct Hpath as [_ Hpath]. destruct pc as [es|es]; cbn [render_string].
+    - apply fstart_plain. reflexivity.
+    - apply andb_true_iff in Hpath. destruct Hpath as [Hpath _]. apply andb_true_iff in Hpath. destruct Hpath as [Hpath Hne].
+      destruct path as [|c path]; [discriminate|]. destruct (octets_head _ _ _ Hpath) as (h & tl & Eh & Hp). rewrite Eh. cbn [app]. apply fstart_plain. exact Hp. }
+  eapply runs_bind; [apply skip_to_next_field_runs; exact HP|intros t Ht; rewrite <- app_assoc; apply Hhead|].
+  cbv beta. destruct org as [[[s2 nc] ls]|]; cbn [render_org].
+  - destruct (sep_ok p1 (quoted pc) s2) as [p2|] eqn:Es2; [|discriminate]. apply andb_true_iff in Hok. destruct Hok as [Hnm He].
+    pose proof (sep_ok_inv _ _ _ _ Es2) as [HP2 HE2].
+    eapply runs_bind; [apply path_runs; exact Hpath| |].
+    { intros t Ht. destruct (quoted pc) eqn:Eq; [exact I|]. cbn [ftail]. rewrite <- !app_assoc. eapply fend_sep; [exact HP2|apply HE2; reflexivity]. }
+    cbv beta. rewrite <- !app_assoc.
+    eapply runs_bind; [apply through_field_runs; exact HP2| |].
+    { intros t Ht. destruct (name_head _ _ _ _ _ Hnm) as (h & tl & Eh & Hp). rewrite <- app_assoc, Eh. cbn [app]. apply fstart_plain. exact Hp. }
+    cbv beta iota. eapply runs_eq; [intros r; apply bindM_assoc|].
+    eapply runs_bind; [eapply name_runs; [exact Hnm|exact Hx]|intros t Ht; eapply fend_eol; eassumption|].
+    cbv beta. eapply runs_eq; [intros r; apply bindM_assoc|].
+    apply runs_app_nil. eapply runs_bind; [apply expect_eol_runs; exact He|intros t Ht; exact Ht|].
+    cbv beta. eapply runs_eq; [intros r; apply bind_ret_l|]. apply runs_ret.
+  - cbn [app].
+    eapply runs_bind; [apply path_runs; exact Hpath| |].
+    { intros t Ht. destruct (quoted pc); [exact I|]. cbn [ftail]. eapply fend_eol; eassumption. }
+    cbv beta. apply runs_app_nil.
+    eapply runs_bind; [apply through_eol_runs; exact Hok|intros t Ht; exact Ht|].
+    cbv beta iota. eapply runs_eq; [intros r; apply bind_ret_l|]. apply runs_ret.
+Qed.
+
+Theorem include_line_parses x lows s pc path org e t rd0 : sctx_good x -> line_ok x (LInclude lows s pc path org e) = true ->
+  r_rest rd0 = render_line (LInclude lows s pc path org e) ++ t -> r_paren rd0 = false -> wfr rd0 -> eoft (e_term e) t ->
+  exists rd1, parse_line (ctx_of x) rd0 =
+                Ok ((option_map (line_of (p_line (r_pos rd0))) (line_item x (LInclude lows s pc path org e)), ctx_of x), rd1) /\
+              post rd0 rd1 (render_line (LInclude lows s pc path org e)) t false.
+Proof.
+  intros Hx Hok E P W Ht. cbn [render_line line_item option_map line_of] in *.
+  assert (Hok' : line_ok x (LInclude [] s pc path org e) = true) by exact Hok.
+  pose proof Hok as Hok2. cbn [line_ok] in Hok2. destruct (sep_ok false false s) as [p1|] eqn:Es; [|discriminate].
+  pose proof (sep_ok_inv _ _ _ _ Es) as [HP HE].
+  assert (Hd : parse_line (ctx_of x) rd0 = parse_directive (ctx_of x) rd0).
+  { unfold parse_line, peek_octet. rewrite E. cbn [apply_case d_include_s app hd_error]. destruct (hd false lows); reflexivity. }
+  rewrite Hd. unfold parse_directive.
+  unfold bindM at 1. rewrite <- app_assoc in E. rewrite (include_not_origin lows _ rd0 E).
+  unfold bindM at 1. rewrite (include_not_ttl lows _ rd0 E).
+  (* the word *)
+  assert (Ht1 : fend ((render_sep s ++ render_string pc path ++ render_org org ++ render_eol e) ++ t)).
+  { rewrite <- app_assoc. eapply fend_sep; [exact HP|apply HE; reflexivity]. }
+  destruct (directive_word lows d_include false (proj1 include_word_ok) (proj2 include_word_ok) rd0 _ E P W Ht1) as (r1 & F1 & P1).
+  unfold bindM at 1. rewrite F1.
+  pose proof (post_wfr _ _ _ _ _ W E P1) as W1.
+  assert (Hline : p_line (r_pos r1) = p_line (r_pos rd0)).
+  { destruct P1 as (_ & _ & A3 & _). rewrite A3, count_nl_none; [lia|]. apply apply_case_no_nl; apply include_word_ok. }
+  unfold parse_include_directive. unfold bindM at 1. unfold bindM at 1. unfold getpos.
+  destruct (include_body_runs x (r_pos r1) s pc path org e Hx Hok' r1 t
+              ltac:(destruct P1 as (A & _); rewrite A; reflexivity) ltac:(destruct P1 as (_ & A & _); exact A) W1 Ht) as (r2 & F2 & P2).
+  rewrite F2. unfold ret. rewrite Hline. exists r2. split; [reflexivity|].
+  eapply post_trans; [exact P1|]. exact P2.
+Qed.
+
 (* ---- any line ---------------------------------------------------------------------------------------------------------------------------------- *)
 
 Theorem line_parses x l t rd0 : sctx_good x -> line_ok x l = true ->
   r_rest rd0 = render_line l ++ t -> r_paren rd0 = false -> wfr rd0 -> eoft (e_term (line_end l)) t ->
   exists rd1, parse_line (ctx_of x) rd0 =
-                Ok ((match l with LRecord _ r => Some (item_of (p_line (r_pos rd0)) r) | _ => None end, ctx_of (after_line x l)), rd1) /\
+                Ok ((option_map (line_of (p_line (r_pos rd0))) (line_item x l), ctx_of (after_line x l)), rd1) /\
               post rd0 rd1 (render_line l) t false.
 Proof.
-  intros Hx Hok E P W Ht. destruct l as [rc r|e|lows s nc ls e|lows s ic raw e]; cbn [line_end] in Ht.
+  intros Hx Hok E P W Ht. destruct l as [rc r|e|lows s nc ls e|lows s ic raw e|lows s pc path org e]; cbn [line_end] in Ht.
   - eapply record_line_parses; eassumption.
   - cbn [after_line]. eapply blank_line_parses; eassumption.
   - eapply origin_line_parses; eassumption.
   - eapply ttl_line_parses; eassumption.
+  - cbn [after_line]. eapply include_line_parses; eassumption.
 Qed.
 
 Lemma after_line_good x l : sctx_good x -> line_ok x l = true -> sctx_good (after_line x l).
 Proof.
-  intros Hx Hok. destruct l as [rc r|e|lows s nc ls e|lows s ic raw e]; cbn [after_line]; try exact Hx.
+  intros Hx Hok. destruct l as [rc r|e|lows s nc ls e|lows s ic raw e|lows s pc path org e]; cbn [after_line]; try exact Hx.
   cbn [line_ok] in Hok. destruct (sep_ok false false s); [|discriminate]. apply andb_true_iff in Hok. destruct Hok as [Hnm _].
   unfold sctx_good. cbn [x_origin]. intros ols [= <-]. eapply name_ok_good. exact Hnm.
 Qed.
@@ -454,23 +558,38 @@ Proof.
     as (h & tl & Eh & _). rewrite Eh. intros H. apply app_eq_nil in H. destruct H as [_ H]. discriminate.
 Qed.
 
-Lemma denote_empty : forall ls x n, sctx_good x -> file_ok x ls = true -> render_file ls = [] -> denote n ls = [].
+Lemma denote_cons x n l ls : denote x n (l :: ls) =
+  match line_item x l with
+  | Some it => (n, it) :: denote (after_line x l) (n + count_nl (render_line l)) ls
+  | None => denote (after_line x l) (n + count_nl (render_line l)) ls
+  end.
+Proof. destruct l; reflexivity. Qed.
+
+Lemma line_nonempty x l : sctx_good x -> line_ok x l = true -> line_item x l <> None -> render_line l <> [].
+Proof.
+  intros Hx Hok Hit. destruct l as [rc r|e|lows s nc ls e|lows s ic raw e|lows s pc path org e]; cbn [line_item] in Hit; try congruence.
+  - cbn [render_line]. eapply record_nonempty; eassumption.
+  - cbn [render_line apply_case d_include_s app]. discriminate.
+Qed.
+
+Lemma denote_empty : forall ls x n, sctx_good x -> file_ok x ls = true -> render_file ls = [] -> denote x n ls = [].
 Proof.
   induction ls as [|l ls IH]; intros x n Hx Hok He; [reflexivity|].
   cbn [file_ok] in Hok. apply andb_true_iff in Hok. destruct Hok as [Hok Hrest]. apply andb_true_iff in Hok. destruct Hok as [Hl _].
   cbn [render_file] in He. apply app_eq_nil in He. destruct He as [He1 He2].
-  cbn [denote]. destruct l as [rc r| | |]; try (eapply IH; [eapply after_line_good; eassumption|exact Hrest|exact He2]).
-  exfalso. cbn [render_line] in He1. eapply record_nonempty; eassumption.
+  rewrite denote_cons. destruct (line_item x l) as [it|] eqn:Eit.
+  - exfalso. eapply (line_nonempty x l); [exact Hx|exact Hl|congruence|exact He1].
+  - eapply IH; [eapply after_line_good; eassumption|exact Hrest|exact He2].
 Qed.
 
 Lemma lines_loop_file : forall ls x rd fuel, sctx_good x -> file_ok x ls = true ->
   r_rest rd = render_file ls -> r_paren rd = false -> wfr rd -> (length (r_rest rd) < fuel)%nat ->
-  match denote (p_line (r_pos rd)) ls with
+  match denote x (p_line (r_pos rd)) ls with
   | [] => exists c' rd', lines_loop fuel (ctx_of x) rd = Ok (None, c', rd') /\ r_rest rd' = [] /\ wfr rd' /\ r_fuel rd' = r_fuel rd
-  | (n, rec) :: rest =>
-    exists x' ls' rd', lines_loop fuel (ctx_of x) rd = Ok (Some (item_of n rec), ctx_of x', rd') /\
+  | (n, it) :: rest =>
+    exists x' ls' rd', lines_loop fuel (ctx_of x) rd = Ok (Some (line_of n it), ctx_of x', rd') /\
       sctx_good x' /\ file_ok x' ls' = true /\ r_rest rd' = render_file ls' /\ r_paren rd' = false /\ wfr rd' /\
-      r_fuel rd' = r_fuel rd /\ denote (p_line (r_pos rd')) ls' = rest /\ (length (r_rest rd') < length (r_rest rd))%nat
+      r_fuel rd' = r_fuel rd /\ denote x' (p_line (r_pos rd')) ls' = rest /\ (length (r_rest rd') < length (r_rest rd))%nat
   end.
 Proof.
   induction ls as [|l ls IH]; intros x rd fuel Hx Hok E P W L; (destruct fuel as [|fuel]; [lia|]).
@@ -478,54 +597,42 @@ Proof.
   - pose proof Hok as Hok0. cbn [file_ok] in Hok. apply andb_true_iff in Hok. destruct Hok as [Hok Hrest]. apply andb_true_iff in Hok. destruct Hok as [Hl Heof].
     cbn [render_file] in E.
     destruct (r_rest rd) as [|c0 rest0] eqn:Er.
-    + (* nothing left: the remaining lines are all empty *)
-      rewrite (denote_empty (l :: ls) x _ Hx Hok0); [|cbn [render_file]; rewrite <- E; reflexivity].
+    + rewrite (denote_empty (l :: ls) x _ Hx Hok0); [|cbn [render_file]; rewrite <- E; reflexivity].
       cbn [lines_loop]. unfold at_eof. rewrite Er. exists (ctx_of x), rd. rewrite Er. auto.
     + cbn [lines_loop]. unfold at_eof. rewrite Er.
       assert (Ht : eoft (e_term (line_end l)) (render_file ls)).
       { intros Hte. destruct ls as [|l2 ls2]; [reflexivity|]. rewrite Hte in Heof. discriminate. }
       assert (Hne : (1 <= length (render_line l))%nat).
       { destruct (render_line l) as [|c1 tx] eqn:Etx; [|simpl; lia]. exfalso.
-        destruct l as [rc r|e|lows s nc ls0 e|lows s ic raw e]; cbn [render_line line_end] in *.
+        destruct l as [rc r|e|lows s nc ls0 e|lows s ic raw e|lows s pc path org e]; cbn [render_line line_end] in *.
         - exact (record_nonempty x rc r Hx Hl Etx).
         - unfold render_eol in Etx. apply app_eq_nil in Etx. destruct Etx as [_ Etx].
           destruct (e_term e) as [[|]|cx [|]| |cx]; try discriminate Etx. rewrite (Ht eq_refl) in E. discriminate E.
+        - destruct (hd false lows); discriminate Etx.
         - destruct (hd false lows); discriminate Etx.
         - destruct (hd false lows); discriminate Etx. }
       rewrite <- Er in *. destruct (line_parses x l (render_file ls) rd Hx Hl E P W Ht) as (rd1 & F1 & P1).
       rewrite F1. pose proof (post_wfr _ _ _ _ _ W E P1) as W1. pose proof (post_len _ _ _ _ _ E P1) as L1.
       destruct P1 as (A1 & A2 & A3 & A4).
       pose proof (after_line_good x l Hx Hl) as Hx'.
-      destruct l as [rc r|e|lows s nc ls0 e|lows s ic raw e]; cbn [denote].
-      * exists (after_record x r), ls, rd1. split; [reflexivity|]. split; [exact Hx'|]. split; [exact Hrest|].
-        split; [exact A1|]. split; [exact A2|]. split; [exact W1|]. split; [exact A4|]. split; [rewrite A3; reflexivity|].
-        assert (Hrn : render_record rc r <> []) by (apply (record_nonempty x rc r Hx); exact Hl).
-        cbn [render_line] in L1. destruct (render_record rc r); [congruence|]. simpl in L1. lia.
+      rewrite denote_cons. destruct (line_item x l) as [it|] eqn:Eit; cbn [option_map].
+      * exists (after_line x l), ls, rd1. split; [reflexivity|]. split; [exact Hx'|]. split; [exact Hrest|].
+        split; [exact A1|]. split; [exact A2|]. split; [exact W1|]. split; [exact A4|]. split; [rewrite A3; reflexivity|lia].
       * specialize (IH _ rd1 fuel Hx' Hrest A1 A2 W1 ltac:(lia)). rewrite A3 in IH.
-        destruct (denote (p_line (r_pos rd) + count_nl (render_line (LBlank e))) ls) as [|[n rec] rest].
-        -- destruct IH as (c' & rd' & F & B1 & B2 & B3). exists c', rd'. split; [exact F|]. split; [exact B1|]. split; [exact B2|congruence].
-        -- destruct IH as (x' & ls' & rd' & F & B1 & B2 & B3 & B4 & B5 & B6 & B7 & B8).
-           exists x', ls', rd'. split; [exact F|]. split; [exact B1|]. split; [exact B2|]. split; [exact B3|]. split; [exact B4|]. split; [exact B5|]. split; [congruence|]. split; [exact B7|lia].
-      * specialize (IH _ rd1 fuel Hx' Hrest A1 A2 W1 ltac:(lia)). rewrite A3 in IH.
-        destruct (denote (p_line (r_pos rd) + count_nl (render_line (LOrigin lows s nc ls0 e))) ls) as [|[n rec] rest].
-        -- destruct IH as (c' & rd' & F & B1 & B2 & B3). exists c', rd'. split; [exact F|]. split; [exact B1|]. split; [exact B2|congruence].
-        -- destruct IH as (x' & ls' & rd' & F & B1 & B2 & B3 & B4 & B5 & B6 & B7 & B8).
-           exists x', ls', rd'. split; [exact F|]. split; [exact B1|]. split; [exact B2|]. split; [exact B3|]. split; [exact B4|]. split; [exact B5|]. split; [congruence|]. split; [exact B7|lia].
-      * specialize (IH _ rd1 fuel Hx' Hrest A1 A2 W1 ltac:(lia)). rewrite A3 in IH.
-        destruct (denote (p_line (r_pos rd) + count_nl (render_line (LTtl lows s ic raw e))) ls) as [|[n rec] rest].
+        destruct (denote (after_line x l) (p_line (r_pos rd) + count_nl (render_line l)) ls) as [|[n it] rest].
         -- destruct IH as (c' & rd' & F & B1 & B2 & B3). exists c', rd'. split; [exact F|]. split; [exact B1|]. split; [exact B2|congruence].
         -- destruct IH as (x' & ls' & rd' & F & B1 & B2 & B3 & B4 & B5 & B6 & B7 & B8).
            exists x', ls', rd'. split; [exact F|]. split; [exact B1|]. split; [exact B2|]. split; [exact B3|]. split; [exact B4|]. split; [exact B5|]. split; [congruence|]. split; [exact B7|lia].
 Qed.
 
-Definition items_of (l : list (N * arec)) : list (line + (pos * zkind)) := map (fun nr => inl (item_of (fst nr) (snd nr))) l.
+Definition items_of (l : list (N * aitem)) : list (line + (pos * zkind)) := map (fun nr => inl (line_of (fst nr) (snd nr))) l.
 
-Lemma collect_file : forall recs ls x rd fuel acc, denote (p_line (r_pos rd)) ls = recs ->
+Lemma collect_file : forall recs ls x rd fuel acc, denote x (p_line (r_pos rd)) ls = recs ->
   sctx_good x -> file_ok x ls = true -> r_rest rd = render_file ls -> r_paren rd = false -> wfr rd ->
   (length (r_rest rd) < fuel)%nat ->
   exists p', collect fuel (mkParser false rd (ctx_of x)) acc = Ok (rev acc ++ items_of recs, p').
 Proof.
-  induction recs as [|[n rec] recs IH]; intros ls x rd fuel acc Hd Hx Hok E P W L; (destruct fuel as [|fuel]; [lia|]).
+  induction recs as [|[n it] recs IH]; intros ls x rd fuel acc Hd Hx Hok E P W L; (destruct fuel as [|fuel]; [lia|]).
   - assert (LL : (length (r_rest rd) < r_fuel rd)%nat) by (unfold wfr in W; lia).
     pose proof (lines_loop_file ls x rd (r_fuel rd) Hx Hok E P W LL) as H. rewrite Hd in H.
     destruct H as (c' & rd' & F & _). cbn [collect]. unfold parser_next. cbn [ps_error ps_rd ps_ctx]. rewrite F. cbn [bind].
@@ -534,18 +641,18 @@ Proof.
     pose proof (lines_loop_file ls x rd (r_fuel rd) Hx Hok E P W LL) as H. rewrite Hd in H.
     destruct H as (x' & ls' & rd' & F & B1 & B2 & B3 & B4 & B5 & B6 & B7 & B8).
     cbn [collect]. unfold parser_next. cbn [ps_error ps_rd ps_ctx]. rewrite F. cbn [bind].
-    destruct (IH ls' x' rd' fuel (inl (item_of n rec) :: acc) B7 B1 B2 B3 B4 B5 ltac:(lia)) as (p' & Hc).
+    destruct (IH ls' x' rd' fuel (inl (line_of n it) :: acc) B7 B1 B2 B3 B4 B5 ltac:(lia)) as (p' & Hc).
     exists p'. rewrite Hc. cbn [rev items_of map fst snd]. rewrite <- app_assoc. reflexivity.
 Qed.
 
 Lemma ctx0_of : ctx0 = ctx_of sctx0. Proof. reflexivity. Qed.
 
-(* stage 4: a rendered file parses to exactly the records it denotes, in order, with their line numbers *)
+(* stage 4: a rendered file parses to exactly the records and $INCLUDE directives it denotes, in order, with their line numbers *)
 Theorem file_roundtrip ls : file_ok sctx0 ls = true ->
   exists p, parse_all (render ls) = Ok (items_of (number_lines ls), p).
 Proof.
   intros Hok. unfold parse_all, parser_new, render, number_lines. rewrite ctx0_of.
-  destruct (collect_file (denote 1 ls) ls sctx0 (rd_new (render_file ls)) (S (S (length (render_file ls)))) [] eq_refl) as (p & H);
+  destruct (collect_file (denote sctx0 1 ls) ls sctx0 (rd_new (render_file ls)) (S (S (length (render_file ls)))) [] eq_refl) as (p & H);
     [intros ols Ho; discriminate|exact Hok|reflexivity|reflexivity|unfold wfr, rd_new; cbn; lia|unfold rd_new; cbn; lia|].
   exists p. exact H.
 Qed.
